@@ -1,5 +1,6 @@
 import CTV.Lemmas.DerLax
 import CTV.Lemmas.DerTotal
+import CTV.Lemmas.DerHeader
 /-!
 # C10 — The ASN.1 fork is as strict as upstream; lax mode only adds acceptances
 
@@ -90,10 +91,7 @@ theorem field_lax_clause_ignored (d : Dialect) (m : Mode) (t : ATy) (p : FP) (bs
     intro k
     unfold fieldShell absentResult header headerBody headerMiss tagMismatch utagOf expected omitted defaultVal canonParams marshalClass expected
     rfl
-  cases t <;> simp only [parseField] <;> first | exact key _ | skip
-  all_goals (
-    unfold fieldShell absentResult header headerBody headerMiss tagMismatch utagOf expected omitted defaultVal canonParams marshalClass expected
-    rfl)
+  cases t <;> simp only [parseField] <;> exact key _
 
 -- depth 4: SEQUENCE { [0] EXPLICIT SEQUENCE OF SEQUENCE { INTEGER (non-minimal), PrintableString "Aé", OID (empty) } }
 example :
@@ -128,5 +126,60 @@ example : parseField Dialect.upstream .strict (.seqOf false .int64) {} [0x30, 0x
    where `AVal.size` (CTV.Lemmas.DerTotal) counts the octets / elements the decoder allocates. Not yet proved in
    Lean (needs the length bounds of the ISO 8859-1 and BMP transcoders and of the OID arc loop); the bound is
    checked on every case by the harness (`alloc` oracle: decoded size ≤ 2 × input length). -/
+
+/-! ## Marshal ∘ Unmarshal on strict DER
+
+`Canon` is explicit and executable: `parseField d .canon t p bs` succeeds exactly on the inputs that pass `strict` **and** the extra
+tests listed in `CTV/Der/Asn1.lean` (minimal base-128; the string / time tag Marshal itself would choose; no value present that
+Marshal would omit and none absent that Marshal would write; no trailing octets in a SEQUENCE without RawContent; explicit wrapper
+length = inner element; empty Flag content; parameter combinations for which `makeField` writes the class `parseField` expects). -/
+
+/-- **marshal_parse, header part (proved).** Every header the decoder accepts with minimal base-128 — which is the case in
+`canon` mode for every dialect and in `strict` mode once `base128RejectsLeading80` holds (it does since the F11a fix) — is byte for
+byte what `appendTagAndLength` writes for the fields that were read: identifier octets (short and high-tag-number form), length
+octets (short form, long form with minimal big-endian digits), for every class, tag number < 2^31 and length < 2^31. -/
+theorem marshal_parse_header (d : Dialect) (hd : d.b128min = true) (bs : Bytes) (tl : TL) (r : Bytes)
+    (h : parseTagLen d bs = .ok (tl, r)) : bs = encTagLen tl ++ r :=
+  parseTagLen_roundtrip d hd bs tl r h
+
+/-- the same for one whole element: its octets are header-as-written followed by the content -/
+theorem marshal_parse_element (d : Dialect) (hd : d.b128min = true) (bs : Bytes) (e : Elem) (rest : Bytes)
+    (h : readTLV d bs = .ok (e, rest)) : bs = encTagLen e.tl ++ e.content ++ rest ∧ e.content.length = e.tl.len := by
+  unfold readTLV at h
+  cases h0 : parseTagLen d bs with
+  | error err => rw [h0] at h; cases h
+  | ok x =>
+    obtain ⟨tl, r⟩ := x
+    rw [h0] at h
+    simp only [] at h
+    by_cases hl : tl.len > r.length
+    · rw [if_pos hl] at h; cases h
+    · rw [if_neg hl] at h
+      cases h
+      refine ⟨?_, by simp; omega⟩
+      rw [parseTagLen_roundtrip d hd bs tl r h0, List.append_assoc, List.take_append_drop]
+
+example : parseTagLen Dialect.upstream [0xbf, 0x87, 0x68, 0x82, 0x01, 0x00, 0xAA] = .ok (⟨2, 1000, 256, true⟩, [0xAA]) ∧
+    encTagLen ⟨2, 1000, 256, true⟩ = [0xbf, 0x87, 0x68, 0x82, 0x01, 0x00] := ⟨rfl, rfl⟩
+
+/- FULL: marshal_parse —
+     parseField d .canon t p bs = .ok (v, rest) → ∃ enc, marshalField d t p v = .ok enc ∧ bs = enc ++ rest
+   for every `t p bs d`. Proved so far: the header part above (`marshal_parse_header`, `marshal_parse_element`, with the length and
+   base-128 round trips in `CTV/Lemmas/DerHeader.lean`). Missing: the content round trips of INTEGER (`intBytes (intOfBytes c) = c`
+   for minimal `c`) and OBJECT IDENTIFIER, the case analysis matching `makeField`'s class/tag choice with `parseField`'s expectation
+   under `canonParams`, and the recursion through struct fields / slice elements (the two passes of `parseSequenceOf` tile the
+   content). Until then the clause is checked by evaluation on every accepted input of every run: `ctvmodel C10` computes the
+   Canon recogniser and the model's `marshalField` and answers `MODEL-CANON-BROKEN` if a canon-accepted input does not re-marshal to
+   the consumed octets (never, over 3 M lines per thorough run), and the model's re-marshalled octets are compared with Go's. -/
+
+-- an instance: strict DER for a struct with an optional defaulted field, an explicit tag and a SET OF; Canon accepts, marshal reproduces
+example :
+    let t := ATy.struct false (.cons { optional := true, dflt := some 0 } .int64 (.cons { explicit := true, tag := some 1 } .str
+      (.cons { set := true } (.seqOf false .bool) .nil)))
+    let bs : Bytes := [0x30, 0x0e, 0x02, 0x01, 0x05, 0xa1, 0x04, 0x13, 0x02, 0x68, 0x69, 0x31, 0x03, 0x01, 0x01, 0xff]
+    (match parseField Dialect.fork .canon t {} bs with
+     | .ok (v, rest) => (marshalField Dialect.fork t {} v, rest)
+     | .error e => (.error e, [])) = (.ok [0x30, 0x0e, 0x02, 0x01, 0x05, 0xa1, 0x04, 0x13, 0x02, 0x68, 0x69, 0x31, 0x03, 0x01, 0x01, 0xff], []) := by
+  rfl
 
 end C10
